@@ -9,6 +9,8 @@ import sys
 from vc import trees as T
 from depccg.printer import conll, xml as xml_printer, jigg_xml, auto
 from depccg.tools import reader
+from depccg.tools.ja import reader as ja_reader
+from depccg.printer import ja as ja_printer
 from depccg.utils import denormalize
 
 Tree, Token = T.Tree, T.Token
@@ -189,5 +191,32 @@ for n in range(1, MAXW + 1):
         want = iso_spec(v, t)
         if got != want:
             note('depccg/tools/reader.py::_AutoLineReader', v, got, want)
+        # Japanese bank format: rule symbols from the reader's fixed set; the text read back is iso (shape, category text, symbol, word)
+        try:
+            syms = sorted(ja_reader.combinators)
+            cnt = [0]
+
+            def jbuild(vv):
+                cnt[0] += 1
+                cat = CATS[cnt[0] % len(CATS)]
+                if vv[0] == 'L':
+                    return Tree.make_terminal(Token(word='w%d' % cnt[0]), cat)
+                sym = syms[cnt[0] % len(syms)]
+                if vv[0] == 'U':
+                    return Tree.make_unary(cat, jbuild(vv[1]), sym, sym)
+                return Tree.make_binary(cat, jbuild(vv[1]), jbuild(vv[2]), sym, sym, vv[3])
+
+            def jview(x):
+                if x.is_leaf:
+                    return ('L', str(x.cat), x.token.get('word', x.token.get('surf')))
+                return ('N', x.op_symbol, str(x.cat)) + tuple(jview(k) for k in x.children)
+            jt = jbuild(v)
+            text = ja_printer.ja_of(jt)
+            r, _ = ja_reader._JaCCGLineReader(text).parse()
+            got, want = jview(r), jview(jt)
+        except Exception as e:      # noqa
+            got, want = 'raises %s: %s' % (type(e).__name__, e), None
+        if got != want:
+            note('depccg/tools/ja/reader.py::_JaCCGLineReader', v, got, want)
         prev = (v, t)
 print(json.dumps(dict(results=out, rule='every tree view with <= %d words, unary chains of length 1, both head directions; Jigg: each tree after the previous one on the same converter' % MAXW)))
